@@ -51,6 +51,12 @@ DEFAULT_CBMC_FLAGS = [
 ]
 
 
+# Obligation classes that are not part of any property (DESIGN sec. 9 item 6): relational
+# comparison of two NULL pointers, which the code performs on empty slices ({0,0}) and which
+# is benign on the target.  They are dropped before counting and listed in the evidence.
+EXCLUDED_CLASSES = [r"^pointer relation: pointer NULL in "]
+
+
 class Tooling(Exception):
     pass
 
@@ -271,6 +277,7 @@ def unit_key(unit, gb, extra_files):
                         sort_keys=True).encode())
     h.update(json.dumps(tv(), sort_keys=True).encode())
     h.update(json.dumps(DEFAULT_CBMC_FLAGS).encode())
+    h.update(open(os.path.abspath(__file__), "rb").read())  # classification rules are part of the key
     return h.hexdigest()
 
 
@@ -322,7 +329,9 @@ def build_unit(unit, workdir, want_trace_for=None):
 def cbmc_cmd(unit, gb, trace=False, props=None):
     cmd = ["cbmc", gb, "--json-ui"]
     if not unit["no_default_flags"]:
-        cmd += DEFAULT_CBMC_FLAGS
+        cmd += [f for f in DEFAULT_CBMC_FLAGS if not (unit.get("no_pointer_check") and f == "--pointer-check")]
+    if unit.get("no_pointer_check"):
+        cmd += ["--no-pointer-check"]
     cmd += ["--unwind", str(unit["unwind"]), "--unwinding-assertions"]
     us = list(unit["unwindset"])
     if us:
@@ -375,6 +384,11 @@ def classify(unit, results, ctags):
         kind = "tagged" if tags else "safety"
         if tags and tags[0] == "COVER":
             kind = "cover"
+        if kind == "safety" and any(re.search(x, desc) for x in EXCLUDED_CLASSES):
+            kind = "excluded"
+        if kind == "safety" and unit.get("safety_tags"):
+            # how this unit's memory-safety / frame obligations bear on the properties
+            tags = list(unit["safety_tags"])
         obs.append({"id": pid, "status": r.get("status"), "desc": text, "tags": tags, "kind": kind,
                     "line": r.get("sourceLocation", {}).get("line"),
                     "file": r.get("sourceLocation", {}).get("file"),
@@ -445,16 +459,18 @@ def verify_unit(unit, use_cache=True):
             if not any("loop_invariant_step" in o["id"] or "loop invariant is preserved" in o["desc"].lower()
                        or "invariant after step" in o["desc"].lower() for o in obs):
                 raise Tooling("loop contract not applied (no loop_invariant_step obligation)")
-        if any(o["status"] not in ("SUCCESS", "FAILURE") for o in obs):
-            bad = [o for o in obs if o["status"] not in ("SUCCESS", "FAILURE")]
-            raise Tooling("undecided obligations: %s" % [(o["id"], o["status"]) for o in bad[:5]])
+        undecided = [o for o in obs if o["status"] not in ("SUCCESS", "FAILURE")]
+        if undecided and not any(o["kind"] not in ("cover", "excluded") and o["status"] == "FAILURE" for o in obs):
+            # CBMC leaves sibling checks of an already failed expression UNKNOWN; without any
+            # failure an undecided obligation is a tool limit, never a pass and never a violation
+            raise Tooling("undecided obligations: %s" % [(o["id"], o["status"]) for o in undecided[:5]])
         covers = [o for o in obs if o["kind"] == "cover"]
         if not covers:
             raise Tooling("unit has no reachability guard (VCOVER/H_END)")
         vac = [o for o in covers if o["status"] == "SUCCESS"]
         if vac:
             raise Tooling("vacuity: unreachable cover(s): %s" % [o["desc"] for o in vac])
-        failed = [o for o in obs if o["kind"] != "cover" and o["status"] == "FAILURE"]
+        failed = [o for o in obs if o["kind"] not in ("cover", "excluded") and o["status"] == "FAILURE"]
         if failed:
             res["status"] = "failed"
             # second run with traces for the failed obligations only
